@@ -81,6 +81,8 @@ type machine struct {
 
 	fRollbackAfterWrite, fFailedUpdateAfterWrite, fCursorPending, fReopen, fDirChange bool
 	fSnapshotAcrossCommit, fNested, fCursorDelete                                     bool
+	hashCount                                                                         int  // block hash universe in use (grows with failCommit)
+	fIOFailure                                                                        bool // a commit failed on an injected block-file write error
 	flushesSeen                                                                       bool
 }
 
@@ -233,6 +235,9 @@ func (m *machine) open(t *rapid.T, create bool) {
 	}
 	if !ffldb.VerifTune(m.db, m.cfg.MaxFile, m.cfg.CacheSize, m.cfg.FlushSecs) {
 		t.Fatalf("harness: VerifTune rejected the database")
+	}
+	if !ffldb.VerifInstallWriteFailer(m.db) {
+		t.Fatalf("harness: VerifInstallWriteFailer rejected the database")
 	}
 	m.dbOpen = true
 }
@@ -957,7 +962,7 @@ func (m *machine) dropTx(t *rapid.T, x *txh) {
 
 func (m *machine) dump(t *rapid.T, site string, tx database.Tx, root *mbucket, blocks map[common.Uint256][]byte) bool {
 	ok := m.dumpBucket(t, site, tx.Metadata(), root, nil)
-	for i := 0; i < nHashes; i++ {
+	for i := 0; i < m.hashCount; i++ {
 		h := hashN(i)
 		has, err := tx.HasBlock(h)
 		want, exists := blocks[h]
@@ -1099,11 +1104,11 @@ func (m *machine) dumpBucket(t *rapid.T, site string, rb database.Bucket, mb *mb
 // profiles: how often each action is offered to rapid's Repeat.
 var profiles = map[string]map[string]int{
 	"mixed": {"kv": 5, "cursor": 4, "beginRW": 1, "beginRO": 1, "commit": 1, "rollback": 1, "update": 1, "view": 1,
-		"closedTx": 1, "dump": 1, "reopen": 1},
+		"closedTx": 1, "dump": 1, "reopen": 1, "failCommit": 1},
 	// long transactions, many cursor steps between the writes
 	// many small commits over a tiny name space, dumps and reopens in between:
 	// aimed at the layering of transaction / write cache / leveldb
-	"churn": {"update": 8, "dump": 3, "reopen": 1, "view": 1, "beginRO": 1, "rollback": 1, "kv": 2, "cursor": 2},
+	"churn": {"update": 8, "dump": 3, "reopen": 1, "view": 1, "beginRO": 1, "rollback": 1, "kv": 2, "cursor": 2, "failCommit": 2},
 	"walk":  {"kv": 4, "cursor": 14, "beginRW": 3, "beginRO": 1, "commit": 1, "rollback": 1, "update": 1, "dump": 1},
 }
 
@@ -1116,7 +1121,8 @@ func runMachine(t *rapid.T, profile string) *machine {
 	if profile == "churn" {
 		nameAlphabet, nameLens = []byte("ab"), []int{0, 1, 1, 1, 1, 1, 1, 1, 2, 2}
 	}
-	m := &machine{dir: dir, cfg: genConfig(t), root: newBucket(), blocks: map[common.Uint256][]byte{}}
+	m := &machine{dir: dir, cfg: genConfig(t), root: newBucket(), blocks: map[common.Uint256][]byte{}, hashCount: nHashes}
+	ffldb.VerifSetWriteBudget(-1)
 	m.root.keys["ffldb-writeloc"] = []byte("opaque")
 	m.root.subs["ffldb-blockidx"] = &mbucket{keys: map[string][]byte{}, subs: map[string]*mbucket{}, opaque: true}
 	defer m.cleanup()
@@ -1288,6 +1294,56 @@ func runMachine(t *rapid.T, profile string) *machine {
 			managed(t, true)
 		},
 		"view": func(t *rapid.T) { managed(t, false) },
+		// a commit whose block-file writes run into an injected I/O error part way:
+		// it must fail, leave no trace, and the store must stay usable
+		"failCommit": func(t *rapid.T) {
+			if m.rw != nil || m.hashCount > 200 {
+				t.Skip("read-write transaction already open")
+			}
+			type blk struct {
+				h    common.Uint256
+				data []byte
+			}
+			var blks []blk
+			total := 0
+			for i, n := 0, rapid.IntRange(1, 3).Draw(t, "nblocks"); i < n; i++ {
+				b := blk{hashN(m.hashCount), rapid.SliceOfN(rapid.Byte(), 1, 200).Draw(t, "block")}
+				m.hashCount++
+				total += len(b.data) + 12
+				blks = append(blks, b)
+			}
+			key, val := "io"+genName(t, "key"), genValue(t)
+			budget := rapid.IntRange(0, total+8).Draw(t, "budget")
+			x := m.newTx(nil, true, true)
+			ffldb.VerifSetWriteBudget(int64(budget))
+			err := m.db.Update(func(tx database.Tx) error {
+				if err := tx.Metadata().Put([]byte(key), val); err != nil {
+					return err
+				}
+				for _, b := range blks {
+					if err := tx.StoreBlock(b.h, b.data); err != nil {
+						return err
+					}
+				}
+				return nil
+			})
+			ffldb.VerifSetWriteBudget(-1)
+			m.log("Update{Put(%q), %d blocks, %d record bytes} with write budget %d -> %v", key, len(blks), total, budget, err)
+			if budget < total {
+				m.fIOFailure = true
+				m.fFailedUpdateAfterWrite = true
+				m.expectErr(t, "Update-io-failure", err, database.ErrDriverSpecific)
+				return // nothing of it may be visible: the dumps check that
+			}
+			if m.expectErr(t, "Update", err) {
+				x.root.keys[key] = append([]byte{}, val...)
+				m.remember(nil, key)
+				for _, b := range blks {
+					x.blocks[b.h] = b.data
+				}
+				m.applyCommit(x)
+			}
+		},
 		"closedTx": func(t *rapid.T) {
 			if len(m.closed) == 0 {
 				t.Skip("no closed transaction")
@@ -1457,6 +1513,9 @@ func classify(m *machine) (string, bool) {
 	}
 	if m.fCursorDelete {
 		vk.Class("feature/cursor-delete")
+	}
+	if m.fIOFailure {
+		vk.Class("feature/commit-failed-on-injected-write-error")
 	}
 	if m.fDirChange {
 		vk.Class("feature/cursor-direction-change")
